@@ -744,12 +744,31 @@ def dohget_gen(rng, tier):
                 v = alpha.index(t[-1:])
                 t = t[:-1] + alpha[v | (3 if len(t) % 4 == 3 else 15):][:1]
             text, cls = t, "leftover"
-        out.append("dg%d cfg=%s l=%s client=- raw=%s q=%s up=reply:%s cls=%s" % (i, cfg, l, gens.hx(text), gens.hx(q), gens.hx(reply), cls))
+        # the rest of the query string: other pairs, empty pairs, pairs without '=', keys that only look like "dns"; now and
+        # then a percent-encoded key (fasthttp compares keys after decoding) or a dns pair without a value in front
+        pre = rng.choice([b"", b"", b"", b"&", b"&&", b"a=b&", b"a=b&&", b"x&", b"=&", b"dns2=zz&", b"adns=q&", b"ct=application/dns-message&",
+                          b"a=b&&c=d&", b"DNS=zz&", b"%64ns2=1&", b"=v&", b"a==b&"])
+        suf = rng.choice([b"", b"", b"", b"&", b"&&", b"&x=y", b"&dns2=1", b"&&z", b"&dns=QUJD"])
+        r = rng.random()
+        if r < 0.04:
+            pre, cls = b"dns&", cls + "+novalue"          # the first dns pair has no value: 400 on both
+        elif r < 0.08:
+            pre, cls = b"dns=&", cls + "+emptyvalue"
+        key = b"dns"
+        if r > 0.94:
+            key, cls = rng.choice([b"%64ns", b"d%6Es", b"%64%6e%73"]), cls + "+pctkey"   # found by fasthttp only
+        query = pre + key + b"=" + text + suf
+        out.append("dg%d cfg=%s l=%s client=- raw=%s q=%s up=reply:%s cls=%s" % (i, cfg, l, gens.hx(query), gens.hx(q), gens.hx(reply), cls))
     # the empty value, line breaks only
     for j, (l, text) in enumerate([("http-get", b""), ("fasthttp-get", b""), ("http-get", b"%0A%0A%0A%0A"), ("fasthttp-get", b"%0A%0A%0A%0A"),
                                    ("fasthttp-get", b"%0A" * 40), ("fasthttp-get", b"%0D%0A" * 7), ("fasthttp-get", b"A"), ("http-get", b"A")]):
         out.append("dge%d cfg=%s l=%s client=- raw=%s q=%s up=silent cls=empty" % (
-            j, cfgs[0], l, gens.hx(text) if text else "-", gens.hx(struct.pack(">HHHHHH", 1, 0x0100, 1, 0, 0, 0) + b"\1a\0\0\1\0\1")))
+            j, cfgs[0], l, gens.hx(b"dns=" + text), gens.hx(struct.pack(">HHHHHH", 1, 0x0100, 1, 0, 0, 0) + b"\1a\0\0\1\0\1")))
+    for j, (l, query) in enumerate([("http-get", b""), ("fasthttp-get", b""), ("http-get", b"&"), ("fasthttp-get", b"&&&"), ("http-get", b"dns"),
+                                    ("fasthttp-get", b"dns"), ("http-get", b"=&="), ("fasthttp-get", b"=&="), ("fasthttp-get", b"%"), ("fasthttp-get", b"dns=%4"),
+                                    ("fasthttp-get", b"dns=QUJD%"), ("http-get", b"dns=QUJD%")]):
+        out.append("dgq%d cfg=%s l=%s client=- raw=%s q=%s up=silent cls=noparam" % (
+            j, cfgs[0], l, gens.hx(query) if query else "-", gens.hx(struct.pack(">HHHHHH", 1, 0x0100, 1, 0, 0, 0) + b"\1a\0\0\1\0\1")))
     return out
 
 
